@@ -666,7 +666,9 @@ def plus_mutations(rng, fields, cfg, modname, path, cls, full):
     for t, _ in typo_names(rng, lists, full):
         if t not in names and t + "+" not in names:
             foreign(t + "+", "plus-typo", rng.choice([[1], 3, [2, 3]]))
-    if isinstance(here, dict):
+    # (inside an item of a list of dataclasses the item is validated with itself as `default` and set_defaults refuses `k+`
+    #  - 'No action for key "qs+" to set its default' - so a legitimate append is REJECTED there: stricter, not this property; left out)
+    if isinstance(here, dict) and not any(isinstance(x, int) for x in path):
         for n, nd in lf:
             # the legitimate append: accepted (the required check reads the base key: only when it is present or not required)
             if appendable_node(nd) and n + "+" not in here and (n in here or not nd["req"]) and (full or rng.random() < 0.5):
